@@ -102,7 +102,7 @@ VF_SWEEP(format_thresholds, false, "integers at 2^5, 2^7, 2^8, 2^15, 2^16, 2^31,
 }
 #endif
 
-VF_PROPERTY(typed_value_bytes, 6, "typed model value (87 types: integers, floats incl. NaN payloads/Inf/subnormals, 4 string widths, enum, classes with base class and conditional member, chrono time points and durations incl. negative and sub-second, byte containers, every std container, maps with string/integer/float/enum/time-point keys, optional/pointers/pair/tuple) saved to MsgPack from memory and stream: decoded by the independent reference decoder, compared with the independently derived tree, every node in its most compact format; non-trivial = value sits on a format threshold, holds a negative or sub-second time, or a container header")
+VF_PROPERTY(typed_value_bytes, 6, "typed model value (90 types: integers, floats incl. NaN payloads/Inf/subnormals, 4 string widths, enum, classes with base class (first, in the middle, two bases) and conditional member, chrono time points and durations incl. negative and sub-second, byte containers, every std container, maps with string/integer/float/enum/time-point keys, optional/pointers/pair/tuple) saved to MsgPack from memory and stream: decoded by the independent reference decoder, compared with the independently derived tree, every node in its most compact format; non-trivial = value sits on a format threshold, holds a negative or sub-second time, or a container header")
 {
 	const size_t lo = MODEL_GROUP < 0 ? 0 : group_first[MODEL_GROUP], hi = MODEL_GROUP < 0 ? group_first[3] : group_first[MODEL_GROUP + 1];
 	const size_t idx = lo + c.src.draw(hi - lo);
